@@ -1864,7 +1864,7 @@ theorem isIntersects_relate_point (a : Geom) (c : Pt) :
     have e1' : ((relateParts (parts a) ⟨[c], [], []⟩).get .onBoundary .inside == .empty) = false := by
       simpa using e1
     rw [e1']
-    simp only [Bool.not_false, Bool.and_true, Bool.not_and, Bool.or_true]
+    simp only [Bool.not_false, Bool.not_and, Bool.or_true]
     rfl
   | outside =>
     have e1 : (relateParts (parts a) ⟨[c], [], []⟩).get .inside .inside = .empty := by
@@ -1876,5 +1876,228 @@ theorem isIntersects_relate_point (a : Geom) (c : Pt) :
       have := (hbi.mp h).2
       rw [hl] at this; cases this
     rw [e1, e3]; rfl
+
+/-! ### 5b. hand-written `Contains<Point>` / `Intersects<Point>` bodies = masks on the specification -/
+
+theorem containsM_point_rhs (a : Geom) (c : Pt) : containsM a (.point c) = containsCoord a c := by
+  cases a <;> rfl
+
+/-- Point × Point -/
+theorem containsM_point_point (p q : Pt) :
+    containsM (.point p) (.point q) = Gen.isContains (relateSpec (.point p) (.point q)) := by
+  rw [isContains_relate_point, ← coordPos_point_eq_locate, containsM_point_rhs]
+  simp only [containsCoord, containsCoordFlat, coordPos, calcPos, calcPoint]
+  by_cases h : p = q <;> simp [h, PosAcc.result]
+
+/-- MultiPoint × Point -/
+theorem containsM_multiPoint_point (ps : List Pt) (q : Pt) :
+    containsM (.multiPoint ps) (.point q) = Gen.isContains (relateSpec (.multiPoint ps) (.point q)) := by
+  rw [isContains_relate_point, ← coordPos_multiPoint_eq_locate, containsM_point_rhs]
+  simp only [containsCoord, containsCoordFlat, coordPos, calcPos]
+  by_cases h : ps.any (· == q) = true
+  · simp [h, PosAcc.result]
+  · simp [h, PosAcc.result]
+
+/-- `Line: Contains<Coord>` is "position `Inside`" -/
+theorem lineContainsCoord_eq (a b c : Pt) :
+    lineContainsCoord a b c = (coordPos (.line a b) c == .inside) := by
+  simp only [coordPos, calcPos, calcLine, calcPoint, lineContainsCoord]
+  by_cases hab : a = b
+  · subst hab
+    by_cases hc : a = c <;> simp [hc, PosAcc.result]
+  · by_cases h1 : c = a
+    · subst h1; simp [hab, PosAcc.result]
+    · by_cases h2 : c = b
+      · subst h2; simp [hab, PosAcc.result]
+      · by_cases hl : lineCoord a b c = true
+        · simp [hab, h1, h2, hl, PosAcc.result]
+        · simp [hab, h1, h2, hl, PosAcc.result]
+
+/-- Line × Point (degenerate or not) -/
+theorem containsM_line_point (a b c : Pt) :
+    containsM (.line a b) (.point c) = Gen.isContains (relateSpec (.line a b) (.point c)) := by
+  rw [isContains_relate_point, ← coordPos_line_eq_locate, containsM_point_rhs]
+  simp only [containsCoord, containsCoordFlat]
+  exact lineContainsCoord_eq a b c
+
+/-- `Rect: Contains<Coord>` (strict comparisons) is "position `Inside`" -/
+theorem rectContainsCoord_eq (mn mx c : Pt) :
+    rectContainsCoord mn mx c = (coordPos (.rect mn mx) c == .inside) := by
+  obtain ⟨a, b⟩ := mn
+  obtain ⟨x, y⟩ := mx
+  have hc : coordPos (.rect ⟨a, b⟩ ⟨x, y⟩) c = (calcRect ⟨a, b⟩ ⟨x, y⟩ c ⟨false, 0⟩).result := by
+    simp only [coordPos, calcPos]
+  rw [hc, calcRect_eq]
+  rw [Bool.eq_iff_iff, rectContainsCoord_iff]
+  simp only
+  by_cases h1 : c.x < a ∨ c.y < b ∨ x < c.x ∨ y < c.y
+  · rw [if_pos h1]
+    constructor
+    · rintro ⟨g1, g2, g3, g4⟩; exfalso; rcases h1 with h | h | h | h <;> linarith
+    · intro h; cases h
+  · rw [if_neg h1]
+    by_cases h2 : c.x ≤ a ∨ c.y ≤ b ∨ x ≤ c.x ∨ y ≤ c.y
+    · rw [if_pos h2]
+      constructor
+      · rintro ⟨g1, g2, g3, g4⟩; exfalso; rcases h2 with h | h | h | h <;> linarith
+      · intro h; cases h
+    · rw [if_neg h2]
+      simp only [not_or, not_le] at h2
+      simp [h2.1, h2.2.1, h2.2.2.1, h2.2.2.2]
+
+/-- Rect × Point, Rect of positive width and height -/
+theorem containsM_rect_point (mn mx c : Pt) (hx : mn.x < mx.x) (hy : mn.y < mx.y) :
+    containsM (.rect mn mx) (.point c) = Gen.isContains (relateSpec (.rect mn mx) (.point c)) := by
+  rw [isContains_relate_point, ← coordPos_rect_eq_locate mn mx c hx hy, containsM_point_rhs]
+  simp only [containsCoord, containsCoordFlat]
+  exact rectContainsCoord_eq mn mx c
+
+/-- `Triangle: Contains<Coord>` is "position `Inside`" -/
+theorem triContainsCoord_eq (a b c p : Pt) :
+    triContainsCoord a b c p = (coordPos (.triangle a b c) p == .inside) := by
+  simp only [coordPos, calcPos, calcTriangle_eq]
+  by_cases ht : triContainsCoord a b c p = true
+  · have hs := (triContainsCoord_iff a b c p).mp ht
+    have n1 : lineCoord a b p = false := by
+      cases h : lineCoord a b p with
+      | false => rfl
+      | true => rw [lineCoord_eq] at h; rcases hs with hs | hs <;> linarith [h.1, hs.1]
+    have n2 : lineCoord b c p = false := by
+      cases h : lineCoord b c p with
+      | false => rfl
+      | true => rw [lineCoord_eq] at h; rcases hs with hs | hs <;> linarith [h.1, hs.2.1]
+    have n3 : lineCoord c a p = false := by
+      cases h : lineCoord c a p with
+      | false => rfl
+      | true => rw [lineCoord_eq] at h; rcases hs with hs | hs <;> linarith [h.1, hs.2.2]
+    simp [n1, n2, n3, ht, PosAcc.result]
+  · have ht' : triContainsCoord a b c p = false := by simpa using ht
+    rw [ht']
+    by_cases hb : (lineCoord a b p || lineCoord b c p || lineCoord c a p) = true
+    · rw [if_pos hb]; simp [PosAcc.result]
+    · rw [if_neg hb]; simp [PosAcc.result]
+
+/-- Triangle × Point -/
+theorem containsM_triangle_point (a b c p : Pt) :
+    containsM (.triangle a b c) (.point p) = Gen.isContains (relateSpec (.triangle a b c) (.point p)) := by
+  rw [isContains_relate_point, ← coordPos_triangle_eq_locate, containsM_point_rhs]
+  simp only [containsCoord, containsCoordFlat]
+  exact triContainsCoord_eq a b c p
+
+/-- Polygon × Point, wherever the Polygon position is the specification's -/
+theorem containsM_polygon_point (poly : Poly) (p : Pt)
+    (h : coordPos (.polygon poly) p = locate (.polygon poly) p) :
+    containsM (.polygon poly) (.point p) = Gen.isContains (relateSpec (.polygon poly) (.point p)) := by
+  rw [isContains_relate_point, ← h, containsM_point_rhs]
+  rfl
+
+/-! #### `Intersects<Point>` -/
+
+/-- Point × Point -/
+theorem intersectsM_point_point (q c : Pt) :
+    intersectsM (.point q) (.point c) = Gen.isIntersects (relateSpec (.point q) (.point c)) := by
+  rw [isIntersects_relate_point, ← coordPos_point_eq_locate]
+  simp only [intersectsM, vsPiece, isxFlat, coordX, coordPos, calcPos, calcPoint]
+  by_cases h : q = c
+  · subst h; simp [PosAcc.result]
+  · have : ¬ c = q := fun e => h e.symm
+    simp [h, this, PosAcc.result]
+
+/-- MultiPoint × Point -/
+theorem intersectsM_multiPoint_point (qs : List Pt) (c : Pt) :
+    intersectsM (.multiPoint qs) (.point c) = Gen.isIntersects (relateSpec (.multiPoint qs) (.point c)) := by
+  rw [isIntersects_relate_point, ← coordPos_multiPoint_eq_locate]
+  simp only [intersectsM, vsPiece, isxFlat, coordX, coordPos, calcPos]
+  have : (qs.any fun q => c == q) = qs.any (· == c) := by
+    congr 1; funext q; exact beq_pt_comm _ _
+  rw [this]
+  by_cases h : qs.any (· == c) = true
+  · simp [h, PosAcc.result]
+  · simp [h, PosAcc.result]
+
+/-- `Line: Intersects<Coord>` is "position not `Outside`" -/
+theorem lineCoord_eq_pos (a b c : Pt) : lineCoord a b c = (coordPos (.line a b) c != .outside) := by
+  simp only [coordPos, calcPos, calcLine, calcPoint]
+  by_cases hab : a = b
+  · subst hab
+    by_cases hc : a = c
+    · subst hc; simp [lineCoord_left, PosAcc.result]
+    · have : ¬ lineCoord a a c = true := by rw [lineCoord_degenerate]; exact fun e => hc e.symm
+      simp [hc, this, PosAcc.result]
+  · by_cases h1 : c = a
+    · subst h1; simp [hab, lineCoord_left, PosAcc.result]
+    · by_cases h2 : c = b
+      · subst h2; simp [hab, lineCoord_right, PosAcc.result]
+      · by_cases hl : lineCoord a b c = true
+        · simp [hab, h1, h2, hl, PosAcc.result]
+        · simp [hab, h1, h2, hl, PosAcc.result]
+
+/-- Line × Point -/
+theorem intersectsM_line_point (a b c : Pt) :
+    intersectsM (.line a b) (.point c) = Gen.isIntersects (relateSpec (.line a b) (.point c)) := by
+  rw [isIntersects_relate_point, ← coordPos_line_eq_locate, ← lineCoord_eq_pos]
+  simp only [intersectsM, vsPiece, isxFlat, coordX]
+
+/-- `Rect: Intersects<Coord>` is "position not `Outside`" -/
+theorem rectCoord_eq_pos (mn mx c : Pt) : rectCoord mn mx c = (coordPos (.rect mn mx) c != .outside) := by
+  obtain ⟨a, b⟩ := mn
+  obtain ⟨x, y⟩ := mx
+  have hc : coordPos (.rect ⟨a, b⟩ ⟨x, y⟩) c = (calcRect ⟨a, b⟩ ⟨x, y⟩ c ⟨false, 0⟩).result := by
+    simp only [coordPos, calcPos]
+  rw [hc, calcRect_eq, Bool.eq_iff_iff, rectCoord_iff]
+  simp only
+  by_cases h1 : c.x < a ∨ c.y < b ∨ x < c.x ∨ y < c.y
+  · rw [if_pos h1]
+    constructor
+    · rintro ⟨g1, g2, g3, g4⟩; exfalso; rcases h1 with h | h | h | h <;> linarith
+    · intro h; exact absurd h (by decide)
+  · rw [if_neg h1]
+    simp only [not_or, not_lt] at h1
+    constructor
+    · intro _; split <;> decide
+    · intro _; exact ⟨h1.1, h1.2.2.1, h1.2.1, h1.2.2.2⟩
+
+/-- Rect × Point, Rect of positive width and height -/
+theorem intersectsM_rect_point (mn mx c : Pt) (hx : mn.x < mx.x) (hy : mn.y < mx.y) :
+    intersectsM (.rect mn mx) (.point c) = Gen.isIntersects (relateSpec (.rect mn mx) (.point c)) := by
+  rw [isIntersects_relate_point, ← coordPos_rect_eq_locate mn mx c hx hy, ← rectCoord_eq_pos]
+  simp only [intersectsM, vsPiece, isxFlat, coordX]
+
+/-- Polygon × Point, wherever the Polygon position is the specification's -/
+theorem intersectsM_polygon_point (poly : Poly) (p : Pt)
+    (h : coordPos (.polygon poly) p = locate (.polygon poly) p) :
+    intersectsM (.polygon poly) (.point p) = Gen.isIntersects (relateSpec (.polygon poly) (.point p)) := by
+  rw [isIntersects_relate_point, ← h]
+  simp only [intersectsM, vsPiece, isxFlat, coordX, polyCoord]
+
+/-- LineString × Point (bounding-box rejection included) -/
+theorem intersectsM_lineString_point (cs : List Pt) (c : Pt) :
+    intersectsM (.lineString cs) (.point c) =
+      Gen.isIntersects (relateSpec (.lineString cs) (.point c)) := by
+  rw [isIntersects_relate_point, ← coordPos_lineString_eq_locate]
+  have hr : rectNewPts c c = (c, c) := by simp [rectNewPts, SM.rectNew]
+  have hd : disjointBB (.lineString cs) (.point c) =
+      (match getBoundingRect cs with
+       | none => false
+       | some (mn, mx) => !rectRect mn mx c c) := by
+    simp only [disjointBB, boundingRect]
+    rw [hr]
+    cases getBoundingRect cs with
+    | none => rfl
+    | some r => rfl
+  have h1 : intersectsM (.lineString cs) (.point c) = lineStringCoord cs c := by
+    simp only [intersectsM, vsPiece, isxFlat, coordX, lineStringCoord]
+    rw [hd]
+    cases getBoundingRect cs with
+    | none => simp only [Bool.false_eq_true, if_false]
+    | some r => rfl
+  rw [h1, lineStringCoord_eq]
+  simp only [coordPos, calcPos, calcLineString_eq]
+  have hle := epc_le_one c cs
+  by_cases he : epc c cs = 1
+  · simp [he, onAnySeg_of_epc he, PosAcc.result]
+  · by_cases hon : onAnySeg c (segs cs) = true
+    · simp [he, hon, PosAcc.result]
+    · simp [he, hon, PosAcc.result]
 
 end Geo.Proofs.Loc
